@@ -10,6 +10,15 @@ CLAIMED = {
  "C11": ("TLA+ definition (Pareto!Mask) evaluated by TLC on enumerated/random matrices, replayed into fast_pareto_mask/makepareto_numpy; SFS algorithm model-checked (ParetoSFS)",
          "TLC enumerates every 3x3 and 4x2 matrix over {0,1,inf} with every min/max/diff goal multiset, and random larger matrices over a float32-adversarial magnitude alphabet; the expected mask is the TLA+ definition; each case is replayed into both entry points in float32 and float64. The algorithm itself is model-checked as a transition system (exact key, rounding key, rounding key with tie-break).",
          "Trusted: TLC, the monotone abstract-value -> float map, JSON export. Bounded: exhaustive only for tiny matrices; larger ones sampled.", "5/C11"),
+ "C05": ("TLC constructs and executes LoopTrees (LoopNest operational semantics + CostModel); terminal counters replayed into evaluate_mapping, exact rational comparison",
+         "TLC constructs every single-Einsum mapping within bounds (holders at any depth, any loop order, perfect factors, 2-3 memory levels, optional Toll) for generated worlds and EXECUTES it node by node (fill on scope entry, write-back on exit, read-modify-write at the compute, never-written outputs skipped per skip_initial_output_write); CostModel turns values into actions/energy/latency with the documented precedence. Every constructed mapping is replayed into the real evaluate_mapping and per-(component,tensor,action) counts, energy and latency must be exactly equal.",
+         "Trusted: TLC, YAML writer, float->Fraction. Bounded: iteration spaces <= 64 points, <= 3 loops per rank variable; projections are single rank variables (no strided/affine sums yet); n_instances = 1.", "5/C05"),
+ "C06": ("TLC executes LoopTrees with per-element liveness tracking (LoopNest); peak / streaming footprint / tile sums compared with resource_usage() of evaluate_mapping; lemma Peak<=Footprint<=Tile model-checked",
+         "During execution every holder records first/last use per element; TLC reports the execution-time peak per memory, the streaming footprint and the LoopTree tile sum, and checks Peak <= Footprint <= Tile on every explored mapping. The real model's usage*size must lie in [Peak, Tile], equal Peak where both readings agree, and oversubscribed mappings must be rejected (tight worlds).",
+         "Single-Einsum nests only so far: fused multi-Einsum mappings, persistent tensors and n_instances are not yet covered. Where the streaming and element readings differ the comparison with the footprint is recorded, not decisive.", "5/C06"),
+ "C31": ("TLC executes LoopTrees containing Toll nodes (LoopNest TollDown/TollUp); toll read actions, zero writes, zero occupancy replayed into evaluate_mapping",
+         "TLC constructs mappings with a Toll between memories or above the compute, per-tensor directions up/down/up_and_down, executes them and charges one read per value crossing in a configured direction; the real model must report exactly these toll reads (scaled by values per action), no toll writes, no toll occupancy and unchanged memory counts/usage.",
+         "The mapper clause (Toll never the outermost holder of a shared tensor in returned mappings) is bound separately on recorded mapper results when the mapper harness is present; single-Einsum model part is bounded as C05.", "5/C31"),
 }
 NOT_YET = "check not built yet in this round; see DESIGN.md section 5 for the planned TLA+ module"
 
